@@ -103,7 +103,11 @@ def _inside_grid_with_n(main_domain, domain_a, domain_b, n, params, invert, devi
     if number_inside == n:
         return grid_a
     # if the grid does not fit, scale the number of points
-    scaled_n = int(n**2 / number_inside)
+    if number_inside == 0:
+        # no point of the first grid was valid, try a finer grid
+        scaled_n = 10 * n
+    else:
+        scaled_n = int(n**2 / number_inside)
     grid_a = domain_a.sample_grid(n=scaled_n, params=params, device=device)
     _, repeat_params = main_domain._repeat_params(scaled_n, params)
     index_valid = _check_in_b(domain_b, repeat_params, invert, grid_a)
